@@ -6,7 +6,7 @@ From Coq Require Import List NArith ZArith Bool Arith Permutation.
 From Coq Require Import Init.Byte.
 From FFS Require Import Base.Res Base.Bytes AbiType.Syntax AbiType.Model Ffi.Model Ffi.Spec Ffi.SpecExact
      Ffi.Proofs Ffi.ProofsSpec Ffi.ProofsRound Ffi.ProofsSig Ffi.ProofsOrder Ffi.ProofsRound3
-     Ffi.ProofsExact Ffi.ProofsNames Ffi.ProofsAbiExact Ffi.ProofsDescribed.
+     Ffi.ProofsExact Ffi.ProofsNames Ffi.ProofsAbiExact Ffi.ProofsDescribed Ffi.ProofsGenerated.
 Import ListNotations.
 Local Open Scope string_scope.
 
@@ -505,3 +505,25 @@ Example C20_accepted_decided_nonvacuous :
   types_valid (described (str "x") s2) = false /\
   is_ok (convertFFIParam (mkPin (str "x") true (Some (Some s2)))) = false.
 Proof. vm_compute. repeat split. Qed.
+
+(* 4h. The characterisation 4b/4c/4g is not about an empty corner: every parameter schema that the
+       ABI -> FFI direction generates (for any parameter it accepts at all) declares one JSON type at
+       every level -- the guard of 4 -- and, for distinct member names, is consistent and describes
+       the very parameter it was generated from ([norm], see 0b), whose types are valid. *)
+Theorem C20_generated_in_domain :
+  forall p ns, paramToFFI p = Ok ns ->
+    json_type_declared (snd ns) /\
+    (wf_names p ->
+     consistent (snd ns) = true /\ described (fst ns) (snd ns) = norm p /\ types_valid (norm p) = true).
+Proof. exact generated_in_domain. Qed.
+Print Assumptions C20_generated_in_domain.
+
+(* non-vacuity: tuple[][] over (uint256, (bool)) is converted; its schema describes it *)
+Example C20_generated_nonvacuous :
+  let P n t cs := FParam (str n) (str t) [] false cs in
+  let p := P "p" "tuple[][]" [P "a" "uint256" []; P "b" "tuple" [P "c" "bool" []]] in
+  match paramToFFI p with
+  | Ok ns => described (fst ns) (snd ns) = p /\ consistent (snd ns) = true
+  | _ => False
+  end.
+Proof. vm_compute. split; reflexivity. Qed.
